@@ -35,6 +35,29 @@ CLAIMED["C05"] = (
     "rendering. trim_matches with a pattern whose two trimming orders differ is not compared.",
     "DESIGN §5 C05")
 
+CLAIMED["C02"] = (
+    "TLA+ spec (SliceIndex.tla: guard step + unsafe step with ghost offset/extent, 8-bit word model) model-checked "
+    "by TLC against std's slice.get semantics; reference vectors replayed on shared and _mut variants for five "
+    "element types incl. ZST; recorded random calls validated against Trace_SliceIndex.tla (16-bit word)",
+    "Exhaustive in the model: every index value of an 8-bit usize (all 256) for every length <= 6 and element "
+    "sizes {0,1,2,8}, index pairs over the boundary neighbourhoods (thorough: 80x80 values); the from_raw_parts "
+    "preconditions are invariants of every unsafe step. On the real code: 14.6k reference vectors x 2 "
+    "mutabilities x 5 element types, indices projected to the 0 / len / isize::MAX / usize::MAX neighbourhoods, "
+    "plus 20k-320k recorded calls on slices up to 200 elements.",
+    "Trusted: TLC; the order/sign-preserving projection of model indices to 64-bit values; pointer arithmetic of "
+    "the harness' window rendering. Element types beyond the five listed are not exercised (the code is generic).",
+    "DESIGN §5 C02")
+CLAIMED["C03"] = (
+    "TLA+ spec (StrIndex.tla: forgiving/strict boundary predicate, byte-slice primitive, from_utf8_unchecked step "
+    "with Utf8Cut invariant) model-checked by TLC against str.get / is_char_boundary / the documented clamps; "
+    "vectors replayed into konst::string; recorded random calls validated against Trace_StrIndex.tla",
+    "Exhaustive within bounds: all strings of <=3 (thorough <=4) characters over a 1/2/3/4-byte alphabet, every "
+    "index 0..len+2 and the isize/usize boundary values, every (start,end) pair incl. start>end; results "
+    "(value, None, or panic) compared with the specification on the real code; plus recorded calls on random "
+    "strings up to 14 characters including U+07FF/U+0800/U+FFFF.",
+    "Trusted: TLC, Utf8.tla (cross-checked against std on every vector), catch_unwind as the panic observer.",
+    "DESIGN §5 C03")
+
 NOT_YET = {}
 
 def main():
